@@ -27,6 +27,51 @@ META["C11"] = dict(cat="model_checking", design="6 C11",
                         "exponent field; u64 x i32 x bool is not enumerated. Trusted base as C01.",
                    tech="TLA+ contract + algorithm model (Lemire.tla, Bellerophon.tla) checked by TLC against implementation traces")
 
+_TB = "Trusted base as C01 (TLC, BigNat layer checked in MC_BigNat, oracle checked in MC_IEEE, limb JSON codec)."
+META["C03"] = dict(cat="model_checking", design="6 C03",
+                   text="Floats over every exponent field x significand patterns are rendered three ways by Rust's formatter; TLC first "
+                        "validates each rendering against the model (it must round to / equal the float), then requires the real "
+                        "parser to return exactly that float, in several configurations.",
+                   note="The formatter is not trusted (renderings are validated by TLC). 2^31 / 2^63 floats are not enumerated. " + _TB,
+                   tech="TLC trace validation of (rendering, result) records against the TLA+ oracle")
+META["C04"] = dict(cat="model_checking", design="6 C04",
+                   text="Valid inputs up to 10^6 digits and exponents over the whole i32 range are run in release and in a "
+                        "debug-assertions+overflow-checks build under catch_unwind; TLC validates input validity and "
+                        "outcome = value; the MinLex model runs alongside and must raise no debug assertion and stay within 62 limbs.",
+                   note="Observation instrument: catch_unwind / exit status; the specification supplies the permitted outcome and the "
+                        "capacity measurement. " + _TB,
+                   tech="TLC trace validation of outcome records + algorithm model invariants (no debug assertion, limbs <= 62)")
+META["C05"] = dict(cat="model_checking", design="6 C05",
+                   text="Every input is run in 5 (quick) / 8 (thorough) separately compiled feature configurations, joined by id; "
+                        "TLC requires identical outcome and bits pairwise and agreement with the oracle.",
+                   note="No oracle needed for the agreement verdict. " + _TB,
+                   tech="TLC trace validation of per-input result tuples across configurations")
+META["C06"] = dict(cat="model_checking", design="6 C06",
+                   text="Inputs with 20 .. 10^6 significant digits built around exact midpoints (far-out digits, tails of 9s, "
+                        "trailing zeros, truncations at 19 digits and MAX_DIGITS) are adjudicated by TLC with the oracle on "
+                        "run-length digit strings; the MinLex model (parse_mantissa cut + sticky) runs alongside.",
+                   note="Oracle keeps the first 800 significant digits + a tail flag, which is exact for these formats. " + _TB,
+                   tech="TLA+ oracle + pipeline model evaluated by TLC on implementation traces")
+META["C07"] = dict(cat="model_checking", design="6 C07",
+                   text="Range-end families (every subnormal exponent position, smallest/largest finite, 2^-1075, overflow "
+                        "threshold, zero significands, exponents to the i32 limits with compensating strings) adjudicated by TLC.",
+                   note=_TB, tech="TLA+ oracle + pipeline model evaluated by TLC on implementation traces")
+META["C09"] = dict(cat="model_checking", design="6 C09",
+                   text="Ascending chains across every algorithm switch-over; TLC re-derives the order claim by exact comparison "
+                        "and requires the returned bits never to descend, in each configuration.",
+                   note="No rounding oracle involved; chains are constructed, pairs are not enumerated. " + _TB,
+                   tech="TLC trace validation of chains (exact decimal comparison in TLA+)")
+META["C10"] = dict(cat="model_checking", design="6 C10",
+                   text="Groups of representations of one value (every split point, appended zeros, digits moved into the "
+                        "exponent); TLC verifies they denote the same number and that all bits are identical.",
+                   note="No rounding oracle involved. " + _TB,
+                   tech="TLC trace validation of groups (exact decimal comparison in TLA+)")
+META["C15"] = dict(cat="model_checking", design="6 C15",
+                   text="Allocation requests counted by a global allocator around each parse_float call in the no-alloc "
+                        "configurations; TLC validates allocs = 0 per record on inputs that reach the big-integer path.",
+                   note="Observation instrument: counting #[global_allocator] (per thread). " + _TB,
+                   tech="TLC trace validation of allocation-count records")
+
 PENDING = "check not built yet in this revision of /verif (planned; see DESIGN.md section 6)"
 
 
